@@ -10,6 +10,7 @@ import (
 	"net/url"
 	"os"
 	"path/filepath"
+	"sort"
 	"strings"
 	"testing"
 	"time"
@@ -99,7 +100,7 @@ func TestC19(t *testing.T) {
 	if os.Getenv("VERIF_TIER") == "thorough" {
 		maxLen = 8 << 20
 	}
-	col := ev.Get("C19", "output", "1-6 jobs x 1-4 tasks running at the same time through the real TaskRunner; each task has 1-4 commands, each 'vhelper emit <spec>' (a generated sequence of stdout/stderr chunks with pauses; sizes 0 B to 300 KB, 8 MB in the thorough tier; partial last lines; arbitrary bytes or valid UTF-8) an interpreter builtin (echo/printf), a child that re-opens /dev/stdout or /dev/stderr by path (> and >>), emit commands whose streams the script merges (2>&1, 1>&2: the log must keep the order of the writes), and a command that leaves a background child behind which writes 0.3 s after the command's own process has ended (the runner's kill timeout is the default or 100 ms); every chunk starts with a (job,task,stream,#) marker; task names over letters/digits/_-. space and non-ASCII, in a quarter of the cases two names of one job that differ in a single character (space/underscore, case, accents, CJK); oracle: FileOutputStore.Reader(job,task,stream) equals the concatenation, in order, of that task's chunks for that stream over all its commands, GET /job/logs (with the job id in its canonical or another accepted spelling: upper case, braces, urn:uuid:, without hyphens) returns the same as strings (UTF-8 tasks), a task the job does not have and an unknown job give 404; in half of the cases a second runner is started from a store that knows the jobs but not their tasks' start (a crash between log write and state save) and must return the same logs; in a third of the cases one more job is canceled while its task, which has written to both streams, is still running (its log must hold what it had written); a sixth of the tasks end with a failing command (their output up to it must still be complete) and half of the cases run a second round of the same jobs on the same store; non-trivial = >=64 KiB on a stream or >=2 commands or both streams used, with >=2 tasks writing at once; distinct by (shape of the case)")
+	col := ev.Get("C19", "output", "1-6 jobs x 1-4 tasks running at the same time through the real TaskRunner; each task has 1-4 commands, each 'vhelper emit <spec>' (a generated sequence of stdout/stderr chunks with pauses; sizes 0 B to 300 KB, 8 MB in the thorough tier; partial last lines; arbitrary bytes or valid UTF-8) an interpreter builtin (echo/printf), a child that re-opens /dev/stdout or /dev/stderr by path (> and >>), emit commands whose streams the script merges (2>&1, 1>&2: the log must keep the order of the writes), and a command that leaves a background child behind which writes 0.3 s after the command's own process has ended (the runner's kill timeout is the default or 100 ms); every chunk starts with a (job,task,stream,#) marker; task names over letters/digits/_-. space and non-ASCII, in a quarter of the cases two names of one job that differ in a single character (space/underscore, case, accents, CJK); oracle: FileOutputStore.Reader(job,task,stream) equals the concatenation, in order, of that task's chunks for that stream over all its commands, GET /job/logs (with the job id in its canonical or another accepted spelling: upper case, braces, urn:uuid:, without hyphens) returns the same as strings (UTF-8 tasks), a task the job does not have and an unknown job give 404; in half of the cases a second runner is started from a store that knows the jobs but not their tasks' start (a crash between log write and state save) and must return the same logs; in half of the cases the definitions are edited after the jobs ran (in every pipeline one task is gone and a new one is there) and the logs are read again: unchanged for the tasks the job ran, 404 for the new task; in a third of the cases one more job is canceled while its task, which has written to both streams, is still running (its log must hold what it had written); a sixth of the tasks end with a failing command (their output up to it must still be complete) and half of the cases run a second round of the same jobs on the same store; non-trivial = >=64 KiB on a stream or >=2 commands or both streams used, with >=2 tasks writing at once; distinct by (shape of the case)")
 	vh := helper(t)
 	rapid.Check(t, func(rt *rapid.T) {
 		nJobs := rapid.IntRange(1, 6).Draw(rt, "nJobs")
@@ -265,6 +266,41 @@ func TestC19(t *testing.T) {
 			checkOutputs(rt, w, ids, expects, round)
 			lastIDs = ids
 		}
+		// The logs of a job belong to the job: a later edit of its pipeline (a task renamed: one name gone, a new
+		// one there) changes neither what is returned for the tasks it ran nor makes a task it never had its own.
+		reloaded := rapid.Bool().Draw(rt, "definitionsEditedAfterwards")
+		if reloaded && len(lastIDs) > 0 {
+			defs2 := &definition.PipelinesDef{Pipelines: definition.PipelinesMap{}}
+			for name, pd := range defs.Pipelines {
+				nd := pd
+				nd.Tasks = map[string]definition.TaskDef{"added-after-the-job": {Script: []string{"true"}}}
+				tns := make([]string, 0, len(pd.Tasks))
+				for tn := range pd.Tasks {
+					tns = append(tns, tn)
+				}
+				sort.Strings(tns)
+				for k, tn := range tns {
+					if k == 0 && len(tns) > 1 {
+						continue // (this task no longer exists in the pipeline)
+					}
+					td := pd.Tasks[tn]
+					td.DependsOn = nil
+					nd.Tasks[tn] = td
+				}
+				defs2.Pipelines[name] = nd
+			}
+			if err := defs2.Validate(); err != nil {
+				rt.Fatalf("edited definitions invalid: %v", err)
+			}
+			w.pr.ReplaceDefinitions(defs2)
+			checkOutputs(rt, w, lastIDs, expects, 7)
+			for j, id := range lastIDs {
+				if code, _ := w.get("/job/logs?id=" + id.String() + "&task=added-after-the-job"); code != 404 {
+					rt.Fatalf("[C19] job %d: GET /job/logs for a task that was added to the pipeline after the job ran -> %d, want 404 (the job does not have that task)", j, code)
+				}
+			}
+			w.pr.ReplaceDefinitions(defs)
+		}
 		if canceledWriter {
 			job, err := w.pr.ScheduleAsync("victim", prunner.ScheduleOpts{})
 			if err != nil {
@@ -350,7 +386,7 @@ func TestC19(t *testing.T) {
 		}
 		nontrivial := (big || multiCmd || bothStreams) && writers >= 2
 		col.Add(fmt.Sprintf("%d/%d/%v/%v/%v/%v", nJobs, writers, big, multiCmd, bothStreams, expectsShape(expects)), nontrivial,
-			map[string]int{"failing-task": btoi(anyFails), "second-round-after-failure": btoi(anyFails && rounds == 2), "two-rounds": btoi(rounds == 2), ">=64KiB-on-a-stream": btoi(big), ">=2-commands": btoi(multiCmd), "both-streams": btoi(bothStreams), "writers>=2": btoi(writers >= 2), "writers>=6": btoi(writers >= 6), "merged-streams": btoi(merged), "late-writer-after-command-ended": btoi(lateWriter), "job-canceled-while-its-task-had-written": btoi(canceledWriter), "short-kill-timeout": btoi(kt > 0), "lookalike-task-names": btoi(lookalike), "logs-after-restart": btoi(restarted)}, writers,
+			map[string]int{"failing-task": btoi(anyFails), "second-round-after-failure": btoi(anyFails && rounds == 2), "two-rounds": btoi(rounds == 2), ">=64KiB-on-a-stream": btoi(big), ">=2-commands": btoi(multiCmd), "both-streams": btoi(bothStreams), "writers>=2": btoi(writers >= 2), "writers>=6": btoi(writers >= 6), "merged-streams": btoi(merged), "late-writer-after-command-ended": btoi(lateWriter), "job-canceled-while-its-task-had-written": btoi(canceledWriter), "definitions-edited-after-the-jobs": btoi(reloaded), "short-kill-timeout": btoi(kt > 0), "lookalike-task-names": btoi(lookalike), "logs-after-restart": btoi(restarted)}, writers,
 			map[string]interface{}{"jobs": nJobs, "tasks_writing": writers, "shape": expectsShape(expects)})
 	})
 }
